@@ -639,6 +639,11 @@ static void ZSTDMT_serialState_ensureFinished(serialState_t* serialState,
         serialState->nextJobID = jobID + 1;
         ZSTD_pthread_cond_broadcast(&serialState->cond);
 
+        /* The frame is lost. Stop long distance matching for the jobs that follow : the window they would publish
+         * no longer respects the distances the round buffer is sized for (skipped jobs are not counted),
+         * and the thread filling the round buffer could wait on it for ever instead of reaching the error. */
+        serialState->params.ldmParams.enableLdm = ZSTD_ps_disable;
+
         ZSTD_PTHREAD_MUTEX_LOCK(&serialState->ldmWindowMutex);
         ZSTD_window_clear(&serialState->ldmWindow);
         ZSTD_pthread_cond_signal(&serialState->ldmWindowCond);
